@@ -26,7 +26,7 @@ TABLE = {
         "theorems": ["AcqVerif.C06.monitor_consumes_the_stream_in_order", "AcqVerif.C06.mapped_region_is_the_next_bytes",
                      "AcqVerif.C06.flushed_monitor_has_nothing_unread", "AcqVerif.C06.fresh_monitor_sees_only_the_current_run",
                      "AcqVerif.C06.frames_of_the_current_run", "AcqVerif.C06.stop_flushes_a_registered_monitor", "AcqVerif.Runtime.DMon.micro"],
-        "classes": ["mon", "slowmon", "holdmon", "abortmon", "latemon", "avgmon", "avg1", "camfaultmon"],
+        "classes": ["mon", "slowmon", "holdmon", "abortmon", "latemon", "avgmon", "avg1", "camfaultmon", "switchmon"],
         "kinds": ("monitor-", "map-read-failed", "stored-", "camera-delivered", "never-returns", "CRASH"),
         "what": "a client that maps/unmaps (partially, slowly, holding regions across stop/abort, over several acquisitions) sees consecutive frame "
                 "ids with the right pixels, nothing of a finished acquisition later, map/unmap keep succeeding, and storage is unaffected",
@@ -46,7 +46,7 @@ TABLE = {
         "theorems": ["AcqVerif.C08.camera_stopped_once_per_start", "AcqVerif.C08.camera_started_only_when_armed", "AcqVerif.C08.camera_used_only_while_running",
                      "AcqVerif.C08.running_device_has_a_worker", "AcqVerif.C08.running_only_while_workers_alive", "AcqVerif.C08.not_running_after_workers_exit",
                      "AcqVerif.C08.unconfigured_stream_untouched", "AcqVerif.C08.start_while_running_refused"],
-        "classes": ["api", "switchfail", "restart", "two", "camfault", "reconf", "stofault", "stopawait", "twofail", "drop2", "setfail", "avgf32poll"],
+        "classes": ["api", "switchfail", "restart", "two", "camfault", "reconf", "stofault", "stopawait", "twofail", "drop2", "setfail", "avgf32poll", "incomplete", "stofaultpoll"],
         "kinds": ("device-", "state-", "still-running-after", "never-returns", "CRASH"),
         "what": "every device is opened/closed once, started only when armed, stopped once per start, used only between start and stop; "
                 "Running reported only while workers are alive",
@@ -57,7 +57,7 @@ TABLE = {
                      "AcqVerif.C09.no_frame_call_after_failed_frame_call", "AcqVerif.C09.failed_camera_is_stopped", "AcqVerif.C09.one_stop_per_start",
                      "AcqVerif.C09.not_running_once_workers_exited", "AcqVerif.C09.returned_means_clean",
                      "AcqVerif.C09.faulty_run_stores_a_prefix", "AcqVerif.C09.acquisition_after_a_failure_is_complete"],
-        "classes": ["stofault", "camfault", "avgfault", "trigfault", "twofail", "avgf32", "stopartial"],
+        "classes": ["stofault", "camfault", "avgfault", "trigfault", "twofail", "avgf32", "stopartial", "stofaultpoll"],
         "kinds": ("append-after-failed", "get_frame-after-failed", "still-running-after", "state-", "never-returns", "stored-", "camera-delivered",
                   "device-", "CRASH"),
         "what": "after a scripted camera/storage failure at any call index nothing more reaches the device, the camera is stopped, stop/abort return, "
